@@ -13,6 +13,8 @@ for f in sorted(glob.glob(f"/verif/seeded/{pid}_m*/meta.json")):
 prev_txt = ""
 if prev and len(sys.argv) > 2 and sys.argv[2] == "round2":
     prev_txt = "\nEarlier volunteers already produced the following changes for this property. Yours must be DIFFERENT in location and in kind (another function / file / mechanism; not the same idea applied elsewhere):\n" + "\n".join(f"  - {x[:300]}" for x in prev) + "\nAlso avoid these overused ideas: a hidden static/thread_local scratch or cache, a changed Taylor/series threshold, an in-place aliasing slip in operator*=, a hard-coded offset that is only right for one template parameter. Prefer: wrong case split / boundary inclusion, swapped or transposed index that is invisible for symmetric or square data, a sign or factor that only matters for one overload / one scalar type / one storage type (Map vs value, sparse vs dense, static vs dynamic size), an off-by-one in a loop bound or segment bookkeeping, a missing term in a rarely requested optional output, a state field that one mutator forgets to update, a normalisation / canonicalisation dropped on one construction path.\n"
+if prev and len(sys.argv) > 2 and sys.argv[2] == "round3":
+    prev_txt = "\nEarlier volunteers already produced the following changes for this property. Yours must be DIFFERENT from all of them in location and in kind:\n" + "\n".join(f"  - {x[:260]}" for x in prev) + "\nFirst split the STATEMENT into its separate clauses / operations / types, note which of them the earlier changes touch, and aim your two changes at clauses, functions, overloads, template parameters or scalar / storage types that NONE of the earlier changes touches. Plausible origins: a performance optimisation (skipping work that 'is not needed' for the common case), a generalisation to a new template parameter that subtly changes an old one, a tidy-up that merges two similar code paths that differ in one detail, an early return added for an edge case with the wrong result, an argument-order or row/column-major slip that is invisible on symmetric / square / identity data, a convenience overload that forwards to the main one with slightly different arguments. Avoid: hidden static/thread_local caches, changed series thresholds, dropped normalisation in a constructor.\n"
 print(f"""You are helping to evaluate a verification effort by playing the role of a developer who accidentally breaks a library.
 
 Work ONLY inside the git worktree {wt} (a checkout of the header-only C++20 Lie-group library pettni/smooth). Do NOT read, list or touch /verif or /repo or any other directory outside {wt} (except system headers and /usr/include/eigen3 for reference).
